@@ -398,6 +398,40 @@ theorem loadCopy_keeps_own_cell (h h' : Heap) (o o' : Obj) (src : Ref) (s n : Na
       · cases hg
       · injection hg with hg; injection hg with _ hg; subst hg; rfl
 
+theorem grow_same_cell (h h' : Heap) (o o' : Obj) (n : Nat) (hok : grow h o n = .ok (h', o')) :
+    o'.buf.cell = o.buf.cell ∧ o'.start = o.start ∧ o'.count = o.count ∧ o'.ncols = o.ncols := by
+  unfold grow at hok
+  split at hok
+  · injection hok with hok; injection hok with _ hok; subst hok; exact ⟨rfl, rfl, rfl, rfl⟩
+  · split at hok
+    · cases hok
+    · injection hok with hok; injection hok with _ hok; subst hok; exact ⟨rfl, rfl, rfl, rfl⟩
+
+/-- growth never moves the object to other memory: after an append that had to grow an adopted array, the object still
+    is that array (the caller's array object, resized in place); a borrowed view cannot grow and the append is refused -/
+theorem appendGrow_same_cell (h h' : Heap) (o o' : Obj) (vals : List Int) (hok : appendGrow h o vals = .ok (h', o')) :
+    o'.buf.cell = o.buf.cell := by
+  unfold appendGrow at hok
+  simp only at hok
+  cases hg : grow h o (o.start + o.count + rowsOf o.ncols vals.length) with
+  | error e => rw [hg] at hok; cases hok
+  | ok x =>
+    obtain ⟨h1, o1⟩ := x
+    rw [hg] at hok
+    simp only at hok
+    have := (grow_same_cell _ _ _ _ _ hg).1
+    unfold appendWithin at hok
+    simp only at hok
+    split at hok
+    · cases hok
+    · injection hok with hok; injection hok with _ hok; subst hok; exact this
+
+theorem view_cannot_grow (h : Heap) (o : Obj) (n : Nat) (hn : o.rows < n) (hv : ownsCell h o.buf = false) :
+    grow h o n = .error .ValueError := by
+  unfold grow
+  rw [if_neg (by omega)]
+  simp [hv]
+
 /-! ### extended properties / timestamps -/
 
 /-- shared exactly when sharing was requested (`copy…=False`) and the argument is shareable
